@@ -44,12 +44,28 @@ class PublicOb(EvalArm):
         def native_of(cz):
             s = model_string(chars, cz)
             pht = ob.ph.render(cz)
+            if ev == 'decimal':
+                # the placeholder is an abstract decimal: look for a boundary value that shows the outcome under confirmation
+                from .decimal import POOL
+                want = ob.want_status; first = None
+                for v in ['7'] + POOL:
+                    stt, payload, us = runner.request('EVAL', ev, 'd' + v, native.esc(s), timeout=3.0)
+                    if first is None: first = (stt, payload, us, v)
+                    if want is None or stt == want: return '%r @=d%s' % (s, v), stt, payload, us
+                    if stt in ('PANIC', 'TIMEOUT'): return '%r @=d%s' % (s, v), stt, payload, us
+                return '%r @=d%s' % (s, first[3]), 'NOWITNESS', first[0] + ' ' + first[1], 0
             stt, payload, us = runner.request('EVAL', ev, pht, native.esc(s))
             return '%r @=%s' % (s, pht), stt, payload, us
+        self.want_status = None
         return entry, [('str', chars), self.ph.value()], leaves, native_of
 
+    def outcome_of(self, p, e):
+        out = EvalArm.outcome_of(self, p, e)
+        self.want_status = {'panic': 'PANIC', 'limit': 'TIMEOUT', 'err': 'ERR', 'ok': 'OK'}[out[0]]
+        return out
+
     def render(self, v, cz):
-        if self.ev == 'decimal': return render_decimal(v, cz, self.ph.val)
+        if self.ev == 'decimal': return 'dec?'
         return render_value(self.ev, v, cz)
 
 
